@@ -402,6 +402,66 @@ theorem segOK_ofReader (C : Compression) (P bs : Nat) (store : StoreFile) (codec
     noDeletes := fun h => no_deletes_all_alive _ _ h
     sameCodec := hcodec }
 
+/-! ### where a live document ends up: its rank among the live documents -/
+
+theorem filter_range_succ (p : Nat → Bool) (j : Nat) :
+    ((List.range (j + 1)).filter p).length
+      = (if p 0 then 1 else 0) + ((List.range j).filter fun i => p (i + 1)).length := by
+  rw [List.range_succ_eq_map, List.filter_cons]
+  have : ((List.map Nat.succ (List.range j)).filter p).length = ((List.range j).filter fun i => p (i + 1)).length := by
+    rw [List.filter_map, List.length_map]
+    rfl
+  split <;> simp [this] <;> omega
+
+/-- the live document `j` of a segment is the `rank`-th element of the segment's live documents,
+`rank` = number of live documents before it -/
+theorem liveDocs_rank (alive : Nat → Bool) : ∀ (docs : List Bytes) (start j : Nat), j < docs.length →
+    alive (start + j) = true →
+    (liveDocs alive start docs)[((List.range j).filter fun i => alive (start + i)).length]? = docs[j]? := by
+  intro docs
+  induction docs with
+  | nil => intro start j h; simp at h
+  | cons x xs ih =>
+    intro start j hj ha
+    cases j with
+    | zero =>
+      simp only [Nat.add_zero] at ha
+      simp [liveDocs, ha]
+    | succ j =>
+      have hrec := ih (start + 1) j (by simpa using hj) (by rwa [show start + 1 + j = start + (j + 1) by omega])
+      rw [filter_range_succ (fun i => alive (start + i)) j]
+      simp only [Nat.add_zero, liveDocs, List.getElem?_cons_succ]
+      have hfun : (fun i => alive (start + (i + 1))) = (fun i => alive (start + 1 + i)) := by
+        funext i; congr 1; omega
+      rw [hfun]
+      by_cases h0 : alive start = true
+      · simp only [h0, if_true, List.singleton_append]
+        rw [show 1 + ((List.range j).filter fun i => alive (start + 1 + i)).length
+          = ((List.range j).filter fun i => alive (start + 1 + i)).length + 1 by omega, List.getElem?_cons_succ]
+        exact hrec
+      · simp only [h0, Bool.false_eq_true, if_false, List.nil_append, Nat.zero_add]
+        exact hrec
+
+theorem flatten_getElem_at (ls : List (List Bytes)) : ∀ (k r : Nat) (l : List Bytes), ls[k]? = some l → r < l.length →
+    ls.flatten[(ls.take k).flatten.length + r]? = l[r]? := by
+  induction ls with
+  | nil => intro k r l h; simp at h
+  | cons x xs ih =>
+    intro k r l h hr
+    cases k with
+    | zero =>
+      simp only [List.getElem?_cons_zero, Option.some.injEq] at h
+      subst h
+      simp only [List.take_zero, List.flatten_nil, List.length_nil, Nat.zero_add, List.flatten_cons]
+      rw [List.getElem?_append_left hr]
+    | succ k =>
+      simp only [List.getElem?_cons_succ] at h
+      simp only [List.take_succ_cons, List.flatten_cons, List.length_append]
+      rw [List.getElem?_append_right (by omega)]
+      have := ih k r l h hr
+      rw [← this]
+      congr 1; omega
+
 /-! ### any mix of fetches and iterations through the cache -/
 
 theorem runOps_spec (Adm : Checkpoint → Prop) (hk : KeyDetOn Adm) (C : Compression) (sf : StoreFile)
